@@ -182,6 +182,13 @@ func (a *Agent) createDestAssociation(
 	route *routing.Route,
 	originKey string,
 ) (*udpDestAssociation, error) {
+	// CloseUDPAssociation clears the map: a datagram that was already on its
+	// way here when the client closed the association must not re-open it.
+	if ingress.destAssocs == nil {
+		ingress.destMu.Unlock()
+		return nil, ErrUDPStreamNotFound
+	}
+
 	// Use route.NextHop for first hop (same as TCP implementation)
 	nextHop := route.NextHop
 	conn := a.peerMgr.GetPeer(nextHop)
